@@ -97,6 +97,8 @@ def run(chk, repo, tier):
     C02b.run_b16(chk, repo)
     C02b.run_b17(chk, repo)
     C02b.run_b18(chk, repo)
+    C02b.run_b19(chk, repo)
+    C02b.run_b20(chk, repo)
     from rules.C01b import run_a9
     run_a9(chk, B13, repo, modname='pharmpy.model.external.nonmem.update', minimum=3)
 
